@@ -390,4 +390,203 @@ theorem usolve_spec' (ldm ncol : Nat) (M : Array K) (mo : Nat) (rhs : Array K) (
   rw [h2 i hi, if_pos (by omega)]
 
 end usolve
+/-! ### snode_bmod -/
+section snode
+variable {K : Type} [Field K] [Inhabited K]
+
+theorem snodeScatter_succ (lsub : Array Nat) (istart n nextlu : Nat) (lusup dense : Array K) :
+    snodeScatter lsub istart (n + 1) nextlu lusup dense =
+      ((snodeScatter lsub istart n nextlu lusup dense).1.setIfInBounds (nextlu + n)
+          (snodeScatter lsub istart n nextlu lusup dense).2[lsub[istart + n]!]!,
+       (snodeScatter lsub istart n nextlu lusup dense).2.setIfInBounds lsub[istart + n]! 0) := by
+  simp [snodeScatter, List.range_succ, List.foldl_append]
+
+/-- the copy loop of `snode_bmod`: `lusup[nextlu + t] = dense[row t]`, `dense[row t] = 0` -/
+theorem snodeScatter_spec (lsub : Array Nat) (istart nsupr nextlu : Nat) (lusup dense : Array K)
+    (hinj : ∀ t u, t < nsupr → u < nsupr → lsub[istart + t]! = lsub[istart + u]! → t = u)
+    (hrow : ∀ t, t < nsupr → lsub[istart + t]! < dense.size) (n : Nat) (hn : n ≤ nsupr) :
+    (snodeScatter lsub istart n nextlu lusup dense).1.size = lusup.size ∧
+    (snodeScatter lsub istart n nextlu lusup dense).2.size = dense.size ∧
+    (∀ q, (snodeScatter lsub istart n nextlu lusup dense).1[q]! =
+      if nextlu ≤ q ∧ q < nextlu + n ∧ q < lusup.size then dense[lsub[istart + (q - nextlu)]!]! else lusup[q]!) ∧
+    (∀ t, t < n → (snodeScatter lsub istart n nextlu lusup dense).2[lsub[istart + t]!]! = 0) ∧
+    (∀ r, (∀ t, t < n → lsub[istart + t]! ≠ r) → (snodeScatter lsub istart n nextlu lusup dense).2[r]! = dense[r]!) := by
+  induction n with
+  | zero =>
+    refine ⟨rfl, rfl, fun q => ?_, fun t ht => absurd ht (by omega), fun r _ => rfl⟩
+    rw [if_neg (by omega)]; rfl
+  | succ n ih =>
+    obtain ⟨h1, h2, h3, h4, h5⟩ := ih (by omega)
+    rw [snodeScatter_succ]
+    generalize snodeScatter lsub istart n nextlu lusup dense = p at h1 h2 h3 h4 h5
+    have hread : p.2[lsub[istart + n]!]! = dense[lsub[istart + n]!]! :=
+      h5 _ (fun t ht he => by have := hinj t n (by omega) (by omega) he; omega)
+    refine ⟨by simp [h1], by simp [h2], fun q => ?_, fun t ht => ?_, fun r hr => ?_⟩
+    · simp only
+      rw [getElem!_setIfInBounds, h1, h3 q, hread]
+      by_cases hq : nextlu + n = q
+      · subst hq
+        by_cases hs : nextlu + n < lusup.size
+        · rw [if_pos ⟨rfl, hs⟩, if_pos ⟨by omega, by omega, hs⟩]
+          congr 3; omega
+        · rw [if_neg (by omega), if_neg (by omega), if_neg (by omega)]
+      · rw [if_neg (by omega)]
+        by_cases hc : nextlu ≤ q ∧ q < nextlu + n ∧ q < lusup.size
+        · rw [if_pos hc, if_pos ⟨hc.1, by omega, hc.2.2⟩]
+        · rw [if_neg hc, if_neg (by omega)]
+    · simp only
+      rw [getElem!_setIfInBounds, h2]
+      by_cases he : lsub[istart + n]! = lsub[istart + t]!
+      · rw [if_pos ⟨he, hrow n (by omega)⟩]
+      · rw [if_neg (fun h => he h.1)]
+        exact h4 t (by have : t ≠ n := fun h => he (by rw [h]); omega)
+    · simp only
+      rw [getElem!_setIfInBounds, if_neg (fun h => hr n (by omega) h.1)]
+      exact h5 r (fun t ht => hr t (by omega))
+
+theorem snodeUnload_succ (iptr n : Nat) (lusup tempv : Array K) :
+    snodeUnload iptr (n + 1) lusup tempv =
+      ((snodeUnload iptr n lusup tempv).1.setIfInBounds (iptr + n)
+          ((snodeUnload iptr n lusup tempv).1[iptr + n]! - (snodeUnload iptr n lusup tempv).2[n]!),
+       (snodeUnload iptr n lusup tempv).2.setIfInBounds n 0) := by
+  simp [snodeUnload, List.range_succ, List.foldl_append]
+
+/-- the loop `lusup[iptr++] -= tempv[i]; tempv[i] = 0` -/
+theorem snodeUnload_spec (iptr : Nat) (lusup tempv : Array K) (n : Nat) :
+    (snodeUnload iptr n lusup tempv).1.size = lusup.size ∧ (snodeUnload iptr n lusup tempv).2.size = tempv.size ∧
+    (∀ p, (snodeUnload iptr n lusup tempv).1[p]! =
+      if iptr ≤ p ∧ p < iptr + n ∧ p < lusup.size then lusup[p]! - tempv[p - iptr]! else lusup[p]!) ∧
+    (∀ i, (snodeUnload iptr n lusup tempv).2[i]! = if i < n ∧ i < tempv.size then 0 else tempv[i]!) := by
+  induction n with
+  | zero =>
+    refine ⟨rfl, rfl, fun p => ?_, fun i => ?_⟩
+    · rw [if_neg (by omega)]; rfl
+    · rw [if_neg (by omega)]; rfl
+  | succ n ih =>
+    obtain ⟨h1, h2, h3, h4⟩ := ih
+    rw [snodeUnload_succ]
+    generalize snodeUnload iptr n lusup tempv = q at h1 h2 h3 h4
+    refine ⟨by simp [h1], by simp [h2], fun p => ?_, fun i => ?_⟩
+    · simp only
+      rw [getElem!_setIfInBounds, h1, h3 p, h3 (iptr + n), if_neg (show ¬ (iptr ≤ iptr + n ∧ iptr + n < iptr + n ∧ iptr + n < lusup.size) by omega),
+        h4 n, if_neg (show ¬ (n < n ∧ n < tempv.size) by omega)]
+      by_cases hp : iptr + n = p
+      · subst hp
+        by_cases hs : iptr + n < lusup.size
+        · rw [if_pos ⟨rfl, hs⟩, if_pos ⟨by omega, by omega, hs⟩]
+          congr 3; omega
+        · rw [if_neg (by omega), if_neg (by omega), if_neg (by omega)]
+      · rw [if_neg (by omega)]
+        by_cases hc : iptr ≤ p ∧ p < iptr + n ∧ p < lusup.size
+        · rw [if_pos hc, if_pos ⟨hc.1, by omega, hc.2.2⟩]
+        · rw [if_neg hc, if_neg (by omega)]
+    · simp only
+      rw [getElem!_setIfInBounds, h2, h4 i]
+      by_cases hi : n = i
+      · subst hi
+        by_cases hs : n < tempv.size
+        · rw [if_pos ⟨rfl, hs⟩, if_pos ⟨by omega, hs⟩]
+        · rw [if_neg (by omega), if_neg (by omega), if_neg (by omega)]
+      · rw [if_neg (by omega)]
+        by_cases hc : i < n ∧ i < tempv.size
+        · rw [if_pos hc, if_pos ⟨by omega, hc.2⟩]
+        · rw [if_neg hc, if_neg (by omega)]
+
+theorem idx_lt (j i nsupc nsupr : Nat) (hj : j < nsupc) (hi : i < nsupr) : j * nsupr + i < nsupc * nsupr :=
+  calc j * nsupr + i < j * nsupr + nsupr := by omega
+    _ = (j + 1) * nsupr := by ring
+    _ ≤ nsupc * nsupr := Nat.mul_le_mul_right _ (by omega)
+
+/-- **`snode_bmod`, exact arithmetic.**  Geometry of one relaxed supernode `fsupc..jcol` whose
+columns `fsupc..jcol-1` are stored (`nsupr` rows each, leading dimension `nsupr`) before column
+`jcol`: distinct in-range row subscripts, room for the column, `tempv` zero on `0..nrow-1`. -/
+theorem snodeBmod_spec' (cplx : Bool) (jcol fsupc : Nat) (lsub xlsub : Array Nat) (st : SnodeSt K)
+    (istart nsupr ufirst luptr nsupc : Nat)
+    (e1 : istart = xlsub[fsupc]!) (e2 : nsupr = xlsub[fsupc + 1]! - istart)
+    (e3 : ufirst = st.xlusup[jcol]!) (e4 : luptr = st.xlusup[fsupc]!) (e5 : nsupc = jcol - fsupc)
+    (hle : fsupc ≤ jcol)
+    (hinj : ∀ t u, t < nsupr → u < nsupr → lsub[istart + t]! = lsub[istart + u]! → t = u)
+    (hrow : ∀ t, t < nsupr → lsub[istart + t]! < st.dense.size)
+    (hcol : ufirst + nsupr ≤ st.lusup.size) (hwid : nsupc ≤ nsupr)
+    (hbefore : luptr + nsupc * nsupr ≤ ufirst)
+    (htv : nsupr - nsupc ≤ st.tempv.size) (htz : ∀ i, i < nsupr - nsupc → st.tempv[i]! = 0)
+    (z : Nat → K)
+    (hz : ∀ i, i < nsupc → z i = st.dense[lsub[istart + i]!]! - ∑ j ∈ range i, z j * st.lusup[luptr + (j * nsupr + i)]!) :
+    (snodeBmod cplx jcol fsupc lsub xlsub st).lusup.size = st.lusup.size ∧
+    (∀ t, t < nsupc → (snodeBmod cplx jcol fsupc lsub xlsub st).lusup[ufirst + t]! = z t) ∧
+    (∀ i, nsupc ≤ i → i < nsupr → (snodeBmod cplx jcol fsupc lsub xlsub st).lusup[ufirst + i]! =
+      st.dense[lsub[istart + i]!]! - ∑ r ∈ range nsupc, st.lusup[luptr + (r * nsupr + i)]! * z r) ∧
+    (∀ p, (p < ufirst ∨ ufirst + nsupr ≤ p) → (snodeBmod cplx jcol fsupc lsub xlsub st).lusup[p]! = st.lusup[p]!) ∧
+    (snodeBmod cplx jcol fsupc lsub xlsub st).dense.size = st.dense.size ∧
+    (∀ t, t < nsupr → (snodeBmod cplx jcol fsupc lsub xlsub st).dense[lsub[istart + t]!]! = 0) ∧
+    (∀ r, (∀ t, t < nsupr → lsub[istart + t]! ≠ r) → (snodeBmod cplx jcol fsupc lsub xlsub st).dense[r]! = st.dense[r]!) ∧
+    (snodeBmod cplx jcol fsupc lsub xlsub st).tempv.size = st.tempv.size ∧
+    (∀ i : Nat, (snodeBmod cplx jcol fsupc lsub xlsub st).tempv[i]! = st.tempv[i]!) ∧
+    (snodeBmod cplx jcol fsupc lsub xlsub st).xlusup = st.xlusup.setIfInBounds (jcol + 1) (ufirst + nsupr) := by
+  have hX : ∀ v : Nat, (st.xlusup.setIfInBounds (jcol + 1) v)[fsupc]! = st.xlusup[fsupc]! ∧
+      (st.xlusup.setIfInBounds (jcol + 1) v)[jcol]! = st.xlusup[jcol]! := by
+    intro v
+    constructor <;> rw [getElem!_setIfInBounds, if_neg (by omega)]
+  obtain ⟨s1, s2, s3, s4, s5⟩ := snodeScatter_spec lsub istart nsupr ufirst st.lusup st.dense hinj hrow nsupr (le_refl _)
+  have hcell : ∀ i, i < nsupr → (snodeScatter lsub istart nsupr ufirst st.lusup st.dense).1[ufirst + i]! = st.dense[lsub[istart + i]!]! := by
+    intro i hi
+    rw [s3, if_pos ⟨by omega, by omega, by omega⟩, Nat.add_sub_cancel_left]
+  have hout : ∀ p, (p < ufirst ∨ ufirst + nsupr ≤ p) → (snodeScatter lsub istart nsupr ufirst st.lusup st.dense).1[p]! = st.lusup[p]! := by
+    intro p hp
+    rw [s3, if_neg (by omega)]
+  unfold snodeBmod
+  dsimp only
+  rw [(hX _).1, (hX _).2, ← e1, ← e2, ← e3, ← e4, ← e5]
+  generalize snodeScatter lsub istart nsupr ufirst st.lusup st.dense = P at s1 s2 s3 s4 s5 hcell hout
+  by_cases hlt : fsupc < jcol
+  · rw [if_pos hlt]
+    dsimp only
+    -- the triangular solve
+    obtain ⟨l1, l2, l3⟩ := lsolveG_spec cplx nsupr nsupc (fun s i => s[luptr + i]!) ufirst P.1
+      (fun i j => st.lusup[luptr + (j * nsupr + i)]!) z (by omega)
+      (fun s hs i j hji hi => by
+        have hlt := idx_lt j i nsupc nsupr (by omega) (by omega)
+        rw [hs.2 _ (Or.inl (by omega)), hout _ (Or.inl (by omega))])
+      (fun i hi => by rw [hcell i (by omega)]; exact hz i hi)
+    have hA : lsolveA cplx nsupr nsupc P.1 luptr ufirst = lsolveG cplx nsupr nsupc (fun s i => s[luptr + i]!) P.1 ufirst := rfl
+    rw [hA]
+    generalize lsolveG cplx nsupr nsupc (fun s i => s[luptr + i]!) P.1 ufirst = L1 at l1 l2 l3
+    -- the matrix-vector product
+    obtain ⟨m1, m2, m3⟩ := matvec_spec' cplx nsupr (nsupr - nsupc) nsupc L1 (luptr + nsupc) L1 ufirst st.tempv htv
+    have m2' : ∀ k, k < nsupr - nsupc → (matvec cplx nsupr (nsupr - nsupc) nsupc L1 (luptr + nsupc) L1 ufirst st.tempv)[k]! =
+        ∑ r ∈ range nsupc, st.lusup[luptr + (r * nsupr + (nsupc + k))]! * z r := by
+      intro k hk
+      rw [m2 k hk, htz k hk, zero_add]
+      apply Finset.sum_congr rfl
+      intro r hr
+      have hr' := mem_range.mp hr
+      have hlt := idx_lt r (nsupc + k) nsupc nsupr hr' (by omega)
+      have e : luptr + nsupc + (r * nsupr + k) = luptr + (r * nsupr + (nsupc + k)) := by omega
+      rw [l2 r hr', e, l3 _ (Or.inl (by omega)), hout _ (Or.inl (by omega)), mul_comm]
+    generalize matvec cplx nsupr (nsupr - nsupc) nsupc L1 (luptr + nsupc) L1 ufirst st.tempv = T1 at m1 m2 m3 m2'
+    obtain ⟨u1, u2, u3, u4⟩ := snodeUnload_spec (ufirst + nsupc) L1 T1 (nsupr - nsupc)
+    generalize snodeUnload (ufirst + nsupc) (nsupr - nsupc) L1 T1 = Q at u1 u2 u3 u4
+    refine ⟨by rw [u1, l1, s1], fun t ht => ?_, fun i hi hin => ?_, fun p hp => ?_, s2, s4, s5, by rw [u2, m1], fun i => ?_, rfl⟩
+    · rw [u3, if_neg (by omega)]; exact l2 t ht
+    · rw [u3, if_pos ⟨by omega, by omega, by omega⟩, l3 _ (Or.inr (by omega)), hcell i hin,
+        show ufirst + i - (ufirst + nsupc) = i - nsupc by omega, m2' _ (by omega),
+        show nsupc + (i - nsupc) = i by omega]
+    · rw [u3, if_neg (by omega), l3 p (by omega), hout p hp]
+    · rw [u4]
+      by_cases hc : i < nsupr - nsupc ∧ i < T1.size
+      · rw [if_pos hc, htz i hc.1]
+      · rw [if_neg hc]
+        by_cases hi : i < nsupr - nsupc
+        · have : T1.size ≤ i := by omega
+          simp only [Array.getElem!_eq_getD, Array.getD_eq_getD_getElem?]
+          rw [Array.getElem?_eq_none this, Array.getElem?_eq_none (by omega)]
+        · exact m3 i (by omega)
+  · rw [if_neg hlt]
+    dsimp only
+    have h0 : nsupc = 0 := by omega
+    subst h0
+    refine ⟨s1, fun t ht => absurd ht (by omega), fun i _ hin => ?_, hout, s2, s4, s5, rfl, fun _ => rfl, rfl⟩
+    rw [hcell i hin]; simp
+
+end snode
 end Slu.MyBlas2
